@@ -68,6 +68,8 @@ package multiparty
 
 //@ afunc KeySwitchProtocol.GenShare
 //@   property C16
+//@   assigns shareOut.Value
+//@   draw XSMUDGE
 //@   requires dist(cks.noiseSampler) == XSMUDGE
 //@   requires isntt(skInput.Value.Q) && isntt(skOutput.Value.Q) && mexp(skInput.Value.Q) == 1 && mexp(skOutput.Value.Q) == 1
 //@   requires len(ct.Value) >= 2 && indom(ct.Value[1], ct.IsNTT) && mexp(ct.Value[1]) == 0 && len(shareOut.Value.Coeffs) >= 1 && len(ct.Value[1].Coeffs) >= 1
